@@ -307,6 +307,10 @@ fn evaluate_burst(case: &BurstCase, p: &Params, info: &mut CaseInfo) -> Verdict 
         }
         return Verdict::fail("C19/burst/connection-unserved-after-failed-setups", format!("{} although the fault-free control listener answered within {:?}", what, t / 2));
     }
+    if closed > failing && !natural {
+        // more connections were closed without an answer than had their setup failed
+        return Verdict::fail("C19/good-connection-closed", format!("{}: {} connections were closed without an answer although only {} setups were failed", what, closed, failing));
+    }
     if closed != failing || answered != case.burst - failing {
         return Verdict::Dropped(format!("fault_attribution_differs:{}closed/{}answered", closed, answered));
     }
